@@ -19,6 +19,9 @@ func runC18(in *Sx) *Sx {
 	var dstr []string
 	if d := in.Field("dstr").Args()[0]; d.Atom != "none" {
 		dstr = []string{d.Bytes()}
+		if len(d.Bytes())%2 == 1 {
+			dstr = append(dstr, "second") // more than one default: the first one is the default
+		}
 	}
 	var dint []int
 	var dint64 []int64
